@@ -181,10 +181,17 @@ def run(cx, rep):
             if len(ps) == 2 and txt in ("((%s>>>%s)|(%s<<(32-%s)))" % (ps[0], ps[1], ps[0], ps[1]), "((%s<<(32-%s))|(%s>>>%s))" % (ps[0], ps[1], ps[0], ps[1])):
                 rot = name
     rep.ob("C13.1", "rotr", rot is not None, "no 32-bit rotate-right helper `(v >>> n) | (v << (32 - n))` found", mod.rel, sample={"rotate_fn": rot})
-    pc = None
+    # the compression function: the method whose body - with the helpers it calls folded back in (tsast.flatten_fn),
+    # except the rotate helper itself - contains the rotate-based round function AND updates the state words
+    not_rot = lambda H, call: not (unparen(call["callee"]).get("type") == "Identifier" and unparen(call["callee"])["value"] == rot)
+    pc = pc_orig = None
     for mname, m in w.methods.items():
-        if any(n["type"] == "CallExpression" and s(n["callee"]) == rot for n in walk(m["function"])):
-            pc = m["function"]
+        if m["function"].get("body") is None or m.get("kind") == "getter":
+            continue
+        flat = tsast.flatten_fn(mod, "Hash256Writer", m["function"], depth=3, only=not_rot)
+        direct_state = any(n["type"] == "AssignmentExpression" and s(n["left"]).startswith("this.") and s(n["left"])[5:] in state_fields for n in walk(m["function"]))
+        if direct_state and any(n["type"] == "CallExpression" and s(n["callee"]) == rot for n in walk(flat)):
+            pc, pc_orig = flat, m["function"]
     if pc is None or rot is None:
         rep.anchor_missing("C13.1", "compression function (method using the rotate helper)")
         return
@@ -295,8 +302,9 @@ def run(cx, rep):
             for vn, (kind, init, decl) in mod.vars.items():
                 if init is not None and arrays and any(x is arrays[0] for x in walk(init)):
                     kname = vn
-            ok1 = t1 is not None and h_ in t1[1] and found["Sigma1"][0] in t1[1] and ch_name in t1[1] and any(x.startswith((kname or "?") + "[") for x in t1[1]) and \
-                any(re.match(r"^\w+\[i\]$", x) and not x.startswith((kname or "?") + "[") for x in t1[1])
+            kidx = [re.match(r"^\w+\[(\w+)\]$", x).group(1) for x in (t1[1] if t1 else []) if x.startswith((kname or "?") + "[") and re.match(r"^\w+\[(\w+)\]$", x)]
+            ok1 = t1 is not None and h_ in t1[1] and found["Sigma1"][0] in t1[1] and ch_name in t1[1] and len(kidx) == 1 and \
+                any(re.match(r"^\w+\[%s\]$" % re.escape(kidx[0]), x) and not x.startswith((kname or "?") + "[") for x in t1[1])
             rep.ob("C13.1", "temp1", ok1, "T1 must be h + Sigma1(e) + Ch + K[i] + W[i] (found %s)" % (t1,), mod.loc(pc), sample={"T1": t1})
             ok2 = t2 is not None and set(t2[1]) == {found["Sigma0"][0], maj_name}
             rep.ob("C13.1", "temp2", ok2, "T2 must be Sigma0(a) + Maj (found %s)" % (t2,), mod.loc(pc), sample={"T2": t2})
@@ -312,7 +320,7 @@ def run(cx, rep):
             okff = len(state_fields) == 8 and all(set(ff.get(sf, [])) == {"this." + sf, order[i]} for i, sf in enumerate(state_fields))
             rep.ob("C13.1", "feed-forward", okff, "each state word must be increased by its working variable in order a..h (found %s)" % ff, mod.loc(pc))
     # every call of the compression function is handed exactly one 64-byte block
-    pc_name = [mn for mn, m in w.methods.items() if m["function"] is pc][0]
+    pc_name = [mn for mn, m in w.methods.items() if m["function"] is pc_orig][0]
     buf64 = set()
     for fn, node in w.fields.items():
         v = unparen(node["value"]) if node.get("value") is not None else None
@@ -335,7 +343,7 @@ def run(cx, rep):
                 rep.ob("C13.1", "chunk-is-64-bytes/%s" % mname, ok,
                        "%s hands `%s` to the compression function: it must be the 64-byte block buffer or `x.subarray(p, p + 64)`; a shorter view is read past its end and the missing bytes are hashed as zeros" % (mname, s(a)),
                        mod.loc(n), sample={"caller": mname, "argument": s(a)})
-    rep.floor("C13.1", "calls of the compression function", n_pc, 3)
+    rep.floor("C13.1", "calls of the compression function", n_pc, 1)
     # word load big-endian
     be = False
     for n in walk(pc):
@@ -349,6 +357,8 @@ def run(cx, rep):
     for mname, m in w.methods.items():
         if any((n["type"] == "NumericLiteral" and int(n["value"]) == 0x80) or (n["type"] == "Identifier" and _CONSTS.get(n["value"]) == 0x80) for n in walk(m["function"])):
             dg = m["function"]
+    if dg is not None:
+        dg = tsast.flatten_fn(mod, "Hash256Writer", dg, depth=3, only=lambda H, call: H is not pc_orig)
     if dg is None:
         rep.ob("C13.1", "pad-byte", False, "no method appends the 0x80 padding byte", mod.loc(w.node))
     else:
@@ -402,6 +412,7 @@ def run(cx, rep):
     #   utf8_w   - encodes its parameter, then u32_w(length), then bytes_w(bytes)
     def this_calls(fn):
         out = []
+        fn = tsast.flatten_fn(mod, "Hash256Writer", fn, depth=2, only=lambda H, call: not H.get("params"))
         for n in walk(fn):
             if n["type"] == "CallExpression":
                 mc = method_call(n)
@@ -473,6 +484,57 @@ def run(cx, rep):
     if lp:
         calls = [c[0] for c in this_calls(lp["function"])]
         rep.ob("C13.3", "writer/length-before-bytes", calls[:2] == [u32_w, bytes_w], "the byte length must be written before the bytes (calls %s)" % calls, mod.loc(lp))
+    # ---------------------------------------------------------------- C13.6
+    rep.rule("C13.6", "the writer's position advances by the number of bytes of every write")
+    # A recursive reference is encoded as the stream position at which its target began (BaseRefRuntype.hash256 reads
+    # a number-valued getter of the writer).  That identifies the target only if the position grows with EVERY byte
+    # written: a counter that is advanced when a 64-byte block is compressed gives all targets that begin in the same
+    # block the same id, and two recursive types that differ in which enclosing type a back-edge points to collide.
+    # Decided: for every getter of the writer, the fields it reads (F): (a) in the block feeder some field of F is
+    # increased by an amount derived from the feeder's argument (its length, a slice of it), and (b) a field of F
+    # that the feeder resets or advances by a constant does so next to an update of another field of F (the two-counter
+    # form `blocks * 64 + pending`), never alone.
+    n_get = 0
+    feeder = w.methods.get(bytes_w) if bytes_w else None
+    for gname, gm in sorted(w.methods.items()):
+        if gm.get("kind") != "getter" or gm["function"].get("body") is None:
+            continue
+        F_ = set(ts_common.this_fields_read(gm["function"]))
+        if not F_ or feeder is None:
+            continue
+        ffn = tsast.flatten_fn(mod, "Hash256Writer", feeder["function"], depth=2, only=lambda H, call: not H.get("params"))
+        T = ts_common.taint(ffn, [ts_common.fn_params(ffn)[0]])
+        derived, const_alone = [], []
+        def upd_blocks(fn):
+            out = []
+            for blk in walk(fn):
+                if blk["type"] != "BlockStatement":
+                    continue
+                ups = []
+                for st in blk["stmts"]:
+                    if st["type"] != "ExpressionStatement":
+                        continue
+                    e = unparen(st["expression"])
+                    if e["type"] == "AssignmentExpression" and s(e["left"]).startswith("this."):
+                        ups.append((s(e["left"])[5:], e["operator"], e["right"], e))
+                    elif e["type"] == "UpdateExpression" and s(e["argument"]).startswith("this."):
+                        ups.append((s(e["argument"])[5:], "++", None, e))
+                out.append(ups)
+            return out
+        for ups in upd_blocks(ffn):
+            inF = [u for u in ups if u[0] in F_]
+            for fld, op, rhs, node in inF:
+                if op in ("+=",) and rhs is not None and ts_common.mentions(rhs, T):
+                    derived.append(fld)
+                elif len({u[0] for u in inF}) < 2:
+                    const_alone.append((fld, node))
+        n_get += 1
+        ok = bool(derived) and not [c for c in const_alone if c[0] not in derived]
+        rep.ob("C13.6", "writer/%s" % gname, ok,
+               "the position getter `%s` of the digest writer reads {%s}, which the block feeder `%s` %s: the position is not the number of bytes written so far, so the back-reference ids that hash256 derives from it coincide for different targets and recursive types that disagree on values get the same digest" % (
+                   gname, ", ".join(sorted(F_)), bytes_w, "never advances by the length of what it is given" if not derived else "also resets / advances by a constant on its own (%s)" % ", ".join(sorted({c[0] for c in const_alone}))),
+               mod.loc(gm), sample={"getter": gname, "fields": sorted(F_), "advanced_by_input_length": sorted(set(derived))})
+    rep.floor("C13.6", "number-valued getters of the digest writer", n_get, 1)
     # per class
     fam = ts_common.Family(cx)
     cm = fam.mod
@@ -526,7 +588,7 @@ def run(cx, rep):
         for t in set(all_tags):
             tags.setdefault(t, set()).add(cname)
         # field coverage
-        reads = ts_common.this_fields_read(fn)
+        reads = ts_common.this_fields_read(fn, cm, cname)
         for fname, (owner, ann) in sorted(fam.all_fields(cname).items()):
             if fname == "metadata":
                 continue
@@ -594,6 +656,9 @@ def run(cx, rep):
     # ---------------------------------------------------------------- C13.5
     rep.rule("C13.5", "hash() / hash256() read every constructor argument they read on the reviewed tree")
     ts_common.field_matrix_rule(cx, rep, "C13.5", ['hash', 'hash256'])
+    # ---------------------------------------------------------------- C13.7
+    rep.rule("C13.7", "hash() / hash256(): every element of an array-valued constructor argument is accounted for (no fixed-size prefix)")
+    ts_common.truncation_rule(cx, rep, "C13.7", ['hash', 'hash256'])
 
 
 def check_loops(rep, cm, cname, fn):
